@@ -66,6 +66,69 @@ def witness(ctx, g, comp):
     return "; ".join(sorted({k for k, _ in kinds if not k.startswith("structural-closure")})) or "closure of a witnessed function", None
 
 
+def guard_witness(ctx, g, comp):
+    """w6: the cycle is infeasible because a member M is entered, on the cycle, only with a constant
+    enum variant for one parameter, and the edge that would close the cycle sits behind a match arm of M
+    (or of one of its closures) for another variant of that same parameter."""
+    from ..variants import Variants
+    F = ctx.facts
+    V = Variants(F)
+    cset = set(comp)
+    dead = set()
+    notes = []
+    for M in comp:
+        mb = g.nodes[M]
+        if mb.kind == "closure":
+            continue
+        ins = [(kind, site) for a in comp for (kind, site) in g.edge_info.get((a, M), [])]
+        if not ins or any(kind != "call" for kind, _ in ins):
+            continue
+        for k in range(mb.argc):
+            toks = set()
+            for _kind, site in ins:
+                if k >= len(site.args):
+                    toks.add(("unknown", "arity"))
+                    continue
+                toks |= V.of_operand(site.body, site.bb, len(site.body.blocks[site.bb].stmts), site.args[k])
+            if len(toks) != 1:
+                continue
+            tok = next(iter(toks))
+            if tok[0] != "variant" or tok[2] is None:
+                continue
+            ptoken = ("param", M, k)
+            for A in [M] + [c.path for c in F.closures_of(M)]:
+                if A not in cset:
+                    continue
+                ab = g.nodes[A]
+                cuts = V.guarded_switch_cuts(ab, ptoken, tok[2])
+                if not cuts:
+                    continue
+                cfg = cfg_of(ab)
+                live = cfg.reachable(cfg.entry, cut_edges=cuts)
+                for B in g.edges[A] & cset:
+                    infos = g.edge_info[(A, B)]
+                    if all(kind in ("call", "callback") and site.bb not in live for kind, site in infos):
+                        dead.add((A, B))
+                        notes.append("%s is entered on the cycle only with parameter %d = %s; the call %s -> %s is in a match arm for another variant"
+                                     % (short(M), k, tok[1], short(A), short(B)))
+    if not dead:
+        return None
+    # is the component still cyclic without the dead edges?
+    adj = {a: {b for b in g.edges[a] if b in cset and (a, b) not in dead} for a in comp}
+    color = {}
+
+    def cyc(v):
+        color[v] = 1
+        for w in adj[v]:
+            if color.get(w) == 1 or (w not in color and cyc(w)):
+                return True
+        color[v] = 2
+        return False
+    if any(v not in color and cyc(v) for v in comp):
+        return None
+    return "w6 infeasible cycle: " + "; ".join(sorted(set(notes)))
+
+
 def r1_recursion_witness(ctx):
     g = cg(ctx)
     out = []
@@ -73,6 +136,8 @@ def r1_recursion_witness(ctx):
     for comp in comps:
         key = "scc:" + "+".join(short(c) for c in comp)
         w, why = witness(ctx, g, comp)
+        if not w:
+            w = guard_witness(ctx, g, comp)
         b = ctx.facts.body(comp[0])
         if w:
             out.append(holds("C08.R1", key, b.where(), "termination witness: %s" % w))
@@ -118,7 +183,13 @@ def r2_constructor_sites(ctx):
         for p in reach:
             b = g.nodes[p]
             sites += sum(1 for _ in b.calls(re.compile(r"^procfs::ProcfsHandle::(new|new_unmasked)$")))
-        acyclic = not (reach & cyc - {x for comp in g.sccs() for x in comp if "with_wrap" in x or "ErrorImpl::kind" in x or "into_c_return" in x})
+        # only cycles from which a handle constructor can be reached multiply the number of handles
+        bad = set()
+        for comp in g.sccs():
+            below = g.reachable_from(comp)
+            if any(True for q in below for _ in g.nodes[q].calls(CTORS)):
+                bad |= set(comp)
+        acyclic = not (reach & bad)
         if sites <= 3 and acyclic:
             out.append(holds("C08.R2", "%s:handle-budget" % ep, F.body(ep).where(), "%d handle-creating call sites reachable, none on a cycle" % sites))
         else:
